@@ -291,12 +291,31 @@ def r2(ctx: Ctx) -> None:
     t4 = truth_table(gc, ["ipv6"], cl6, sock4)
     ctx.ob("C20.R2", conv, "IPv6 address -> IPv6Sockaddr, IPv4 address -> IPv4Sockaddr", t6[(True,)] == (True, True) and not t6[(False,)][0] and t4[(False,)] == (True, True) and not t4[(True,)][0], f"v6: {fmt_table(['ipv6'], t6)}; v4: {fmt_table(['ipv6'], t4)}")
     fam = [k.value for c in _calls(conv) if norm(c.func) == "AddrInfo" for k in c.keywords if k.arg == "family"]
-    okf = False
-    if len(fam) == 1 and isinstance(fam[0], ast.IfExp):
-        pol = cl6(Node(-1, "cond", fam[0].test))
-        if pol is not None:
-            a, b = (fam[0].body, fam[0].orelse) if pol[1] else (fam[0].orelse, fam[0].body)
-            okf = norm(a) == "socket.AF_INET6" and norm(b) == "socket.AF_INET"
+    okf = bool(fam)
+    for fm in fam:
+        okm = False
+        if isinstance(fm, ast.IfExp):
+            pol = cl6(Node(-1, "cond", fm.test))
+            if pol is not None:
+                a, b = (fm.body, fm.orelse) if pol[1] else (fm.orelse, fm.body)
+                okm = norm(a) == "socket.AF_INET6" and norm(b) == "socket.AF_INET"
+        okf = okf and okm
+    if fam and not okf and not any(isinstance(fm, ast.IfExp) for fm in fam):
+        # the family may also be a constant per branch: then it must sit in the branch of the matching sockaddr
+        gcc = cfg_of(ctx, conv)
+        okf = True
+        for n in gcc.reachable():
+            for c in node_calls(n):
+                if norm(c.func) == "AddrInfo":
+                    kwf = {k.arg: k.value for k in c.keywords}
+                    f_ = norm(kwf.get("family")) if kwf.get("family") is not None else ""
+                    sa_ = norm(kwf.get("sockaddr").func) if isinstance(kwf.get("sockaddr"), ast.Call) else ""
+                    if f_ in ("socket.AF_INET6", "socket.AF_INET") and sa_:
+                        okf = okf and ((f_ == "socket.AF_INET6") == (sa_ == "IPv6Sockaddr"))
+                    elif isinstance(kwf.get("family"), ast.IfExp):
+                        pass
+                    else:
+                        okf = False
     ctx.ob("C20.R2", conv, "address family agrees with the sockaddr class", okf, f"{[norm(f) for f in fam]}")
     for n in sock6:
         for c in node_calls(n):
